@@ -6,7 +6,9 @@ from props import tables
 def run(tier, seed):
     # bracket discipline of every production on ARBITRARY token sequences: whatever returns normally has consumed a
     # word whose (), [] and {} are matched inside the invocation (callees by contract)
-    res = GO.run_may(None, ["bracket"], "C18/gx", tier)
+    # (and no exception other than ParseError on arbitrary tokens, end of input at every position included: "rejected WITH
+    # ParseError", e.g. a '#' as the last token)
+    res = GO.run_may(None, ["bracket", "rte"], "C18/gx", tier)
     from pyvc.smt_props import run_functions
     import contracts.parser_core as PC  # noqa: F401
     import contracts.tokenstream as TS
@@ -23,7 +25,9 @@ def run(tier, seed):
 
     from pyvc import rx_obligations
     rx = rx_obligations.c10_obligations(tier)
-    rx.obs = [o for o in rx.obs if o.name.startswith("C10/error-coverage")]
+    # error coverage, and the literal languages themselves (a rule that has grown beyond the C token -- a quote swallowed into a
+    # binary constant -- accepts text that is not C; the `ucn` parts are about REJECTED valid text and do not belong here)
+    rx.obs = [o for o in rx.obs if o.name.startswith("C10/error-coverage") or (o.name.startswith("C10/lang/") and o.name.endswith("/core"))]
     for o in rx.obs:
         o.name = "C18/rx/" + o.name[4:]
     res.add(rx)
